@@ -7,7 +7,9 @@ first arg-max of the gamma-weighted activations of the remaining channels
 (recomputed from the modules); `predict_regression` returns the target-channel
 centres of that category for every non-empty target subset;
 `join_channel_data` / `split_channel_data` and `prepare_data` / `restore_data`
-round-trip on the supplied channels.
+round-trip on the supplied channels.  `strict_fp_state`: the same filler-independence / arg-max / centre
+clauses while numpy's floating-point error handling is strict (errstate / seterr 'raise', RuntimeWarning as
+error) and the withheld channel is a narrow GaussianART / BayesianART: no filler may make the call raise.
 
 Tie: `artdrv fusion hist … # pred X SKIP` (model `predictSkip`), `fusion regr`
 (`predictRegression`), `fusion joinsplit` and `fusion restore` (`restoreRow`) on exact
@@ -17,6 +19,8 @@ The two oracle signatures SIG_RESTORE / SIG_REGR are regression guards for the f
 C11-a / C11-b of this slice, fixed in /repo aea0d0b / f0de10c."""
 from __future__ import annotations
 
+import contextlib
+import warnings
 from fractions import Fraction
 from itertools import combinations
 
@@ -26,7 +30,7 @@ from .. import gen, specs
 from ..common import q2s, mat_q, vec_q, run_driver, parse_kv, parse_optnats, parse_mat_q, parse_vec_q
 from ..impl import make, quiet, exc_enum
 from .e2e import close
-from .C10 import gen_channels, fusion_spec, channel_data, chans_str, ints_str, limit_n, EXACT_CH, ambiguous_rows, ActLog
+from .C10 import gen_channels, fusion_spec, channel_data, chans_str, ints_str, limit_n, EXACT_CH, ambiguous_rows, ActLog, GAMMAS
 
 RULE = ("cases = (trained FusionART: channel classes, widths, gammas, hyper-parameters, training stream; query rows; "
         "subset of skipped / target channels and its spelling with positive / negative indices; fillers); a case is "
@@ -269,6 +273,219 @@ def shared_selectors(ctx, G):
             cov.hit("shared-selector:caller-list-intact")
 
 
+# ------------------------------------------------------------------ inference under a strict floating-point error state
+
+DENSITY_CH = ["GaussianART", "BayesianART"]
+FP_MODES = ["errstate-raise", "seterr-raise", "runtimewarning-as-error"]
+
+
+@contextlib.contextmanager
+def strict_fp(mode):
+    """numpy's floating-point error handling made loud, the way an application hardens (or debugs) its inference code:
+    `with np.errstate(all="raise")`, a process-wide `np.seterr(all="raise")`, or the 'warn' state with RuntimeWarning
+    turned into an error (`-W error::RuntimeWarning`).  Everything is restored on exit."""
+    with warnings.catch_warnings():
+        if mode == "errstate-raise":
+            with np.errstate(all="raise"):
+                yield
+        elif mode == "seterr-raise":
+            old = np.seterr(all="raise")
+            try:
+                yield
+            finally:
+                np.seterr(**old)
+        else:
+            warnings.simplefilter("error", RuntimeWarning)
+            with np.errstate(all="warn"):
+                yield
+
+
+FP_EVENT = (FloatingPointError, RuntimeWarning, ZeroDivisionError)
+
+
+def narrow_density_spec(r, c, d):
+    """a density-type channel whose categories are narrow (a precise target): far from a category's mean the density
+    is below the smallest double"""
+    if c == "GaussianART":
+        s = r.choice([0.02, 0.01, 2.0 ** -6, 2.0 ** -7, 2.0 ** -9])
+        return {"cls": c, "rho": r.choice([0.0, 0.0, 0.25, 0.5]), "sigma_init": [s] * d,
+                "alpha": r.choice([1e-10, 2.0 ** -10])}
+    s = r.choice([2.0 ** -12, 2.0 ** -14, 1e-4, 2.0 ** -18])
+    return {"cls": c, "rho": r.choice([0.0625, 0.5, 2.0]), "cov_init": (np.eye(d) * s).tolist()}
+
+
+def ref_argmax_strict(f, Q, S, off, mode):
+    """ref_argmax evaluated under the floating-point error state `mode`, with the library's own arithmetic on the
+    module activations (numpy scalars times gamma, summed left to right).  Returns None when the SUPPLIED channels
+    themselves signal a floating-point event there (then an exception from predict says nothing about the withheld
+    columns and the case is left out)."""
+    gam_ = f.params["gamma_values"]
+    ncat = len(f.W)
+    out = []
+    try:
+        with quiet(), strict_fp(mode):
+            for q in range(Q.shape[0]):
+                T, terms = [], []
+                for c in range(ncat):
+                    tl = [m.category_choice(Q[q, off[j]:off[j + 1]], m.W[c], m.params)[0] * gam_[j]
+                          for j, m in enumerate(f.modules) if j not in S]
+                    terms.append([float(t) for t in tl])
+                    T.append(float(sum(tl)))
+                best = sorted(range(ncat), key=lambda c: (-T[c], c))[0]
+                close_ = [c for c in range(ncat) if c != best and abs(T[c] - T[best]) < 1e-9 * (1 + abs(T[best]))
+                          and terms[c] != terms[best]]
+                out.append(None if close_ or T[best] != T[best] else best)
+    except FP_EVENT:
+        return None
+    return out
+
+
+def strict_fp_state(ctx, G):
+    """Partial-channel inference while numpy's floating-point error handling is strict (see strict_fp).  The model has a
+    narrow density-type channel (GaussianART / BayesianART with a small sigma: a regression target, say) which is WITHHELD,
+    possibly with other channels; its columns carry several fillers that are valid for it (0.5 = join_channel_data's own
+    filler, zeros, ones, uniform random, a training value).  The property is the same as under the default state: every
+    filler gives the same category -- the arg-max over the supplied channels -- and predict_regression the target-channel
+    centre of it; in particular no filler may make the call raise (nothing of the withheld columns is part of the
+    result).  Cases whose SUPPLIED channels signal a floating-point event under the strict state are left out."""
+    cov = ctx.cov
+    for i in range(G):
+        r = gen.rng_for(ctx.seed, "C11-strict-fp", i)
+        k = r.randint(2, 4)
+        narrow = {k - 1} if r.random() < 0.5 else {r.randrange(k)}
+        if k >= 3 and r.random() < 0.25:
+            narrow.add(r.randrange(k))
+        cls, ds, sp = [], [], []
+        for j in range(k):
+            d = r.randint(1, 2)
+            if j in narrow:
+                c = r.choice(DENSITY_CH)
+                s_ = narrow_density_spec(r, c, d)
+            else:
+                c = r.choice(EXACT_CH + ["GaussianART"]) if r.random() < 0.15 else r.choice(EXACT_CH)
+                s_ = specs.elem_spec(r, c, specs.width(c, d) if c != "FuzzyART" else d)
+            cls.append(c), ds.append(d), sp.append(s_)
+        dims = [specs.width(c, d) for c, d in zip(cls, ds)]
+        gam = list(r.choice(GAMMAS[k]))
+        others = [j for j in range(k) if j not in narrow]
+        if not others:
+            continue
+        S = sorted(narrow | set(r.sample(others, r.randint(0, len(others) - 1)) if r.random() < 0.3 else []))
+        floats = r.random() < 0.5
+        n = limit_n(sp, r.randint(4, 14))
+        Xc = channel_data(r, cls, ds, n, floats=floats)
+        X = np.hstack(Xc)
+        spec = fusion_spec(sp, dims, gam)
+        off = np.cumsum([0] + dims)
+        rep = {"spec": spec, "classes": cls, "X": X}
+        try:
+            f = make(spec)
+            set_identity_bounds(f, cls, ds)
+            with quiet():
+                f.fit(X)                                   # training runs under numpy's default error state
+        except Exception:
+            cov.hit("strict-fp:fit-raised(case-left-out)")
+            continue
+        ncat = len(f.W)
+        nq = r.randint(2, 5)
+        Qc = [np.vstack([A[[r.randrange(n)]] if r.random() < 0.5 else B[[j]] for j in range(nq)])
+              for A, B in zip(Xc, channel_data(r, cls, ds, nq, floats=floats))]
+        Q = np.hstack(Qc)
+        Ssp = spell(r, S, k)
+        rep = dict(rep, query=Q, skip=Ssp)
+        cov.case(("strict-fp", tuple(cls), str(sp), tuple(dims), tuple(gam), X.tobytes(), Q.tobytes(), tuple(Ssp)), ncat >= 2)
+        for j in narrow:
+            cov.hit(f"strict-fp:withheld-narrow-{cls[j]}")
+        # the fillers: each valid for the withheld modules' validators
+        try:
+            with quiet():
+                J = f.join_channel_data([Qc[j] for j in range(k) if j not in S], skip_channels=list(Ssp))
+        except Exception as e:
+            ctx.issue("violation", f"FusionART.join_channel_data:{exc_enum(e)}", f"skip {Ssp}: raised {e!r}", rep)
+            continue
+        fillers = {}
+        for name in ("join-filler", "zeros", "ones", "uniform", "training-value"):
+            Qf = Q.copy()
+            for j in S:
+                w = dims[j]
+                if name == "join-filler":
+                    blk = J[:, off[j]:off[j + 1]] if cls[j] != "ART1" else np.ones((nq, w))
+                elif name == "zeros":
+                    blk = np.zeros((nq, w)) if cls[j] != "FuzzyART" else gen.cc(np.zeros((nq, ds[j])))
+                elif name == "ones":
+                    blk = np.ones((nq, w)) if cls[j] != "FuzzyART" else gen.cc(np.ones((nq, ds[j])))
+                elif name == "uniform":
+                    blk = valid_filler(r, cls[j], ds[j], nq, True)
+                else:
+                    blk = Xc[j][[r.randrange(n) for _ in range(nq)]]
+                Qf[:, off[j]:off[j + 1]] = blk
+            fillers[name] = Qf
+        centres = [m.get_cluster_centers() for m in f.modules]
+        tn = [t + k if t < 0 else t for t in Ssp]
+        for mode in FP_MODES:
+            ref = ref_argmax_strict(f, Q, S, off, mode)
+            if ref is None:
+                cov.hit("strict-fp:supplied-channels-signal-an-event(case-left-out)")
+                continue
+            cov.hit(f"strict-fp:{mode}")
+            entries = ["predict", "predict_regression"] + (["predict_regression(default)"] if S == [k - 1] else [])
+            for entry in entries:
+                got, raised = {}, {}
+                for name, Qf in fillers.items():
+                    try:
+                        with quiet(), strict_fp(mode):
+                            if entry == "predict":
+                                o = f.predict(Qf.copy(), skip_channels=list(Ssp))
+                            elif entry == "predict_regression":
+                                o = f.predict_regression(Qf.copy(), target_channels=list(Ssp))
+                            else:
+                                o = f.predict_regression(Qf.copy())
+                        got[name] = o
+                    except Exception as e:
+                        raised[name] = e
+                tag = entry.split("(")[0]
+                rp = dict(rep, fp_state=mode, entry=entry, fillers={a: b for a, b in fillers.items()}, own_channels=S)
+                if raised:
+                    name, e = next(iter(raised.items()))
+                    kind_ = "fp-event" if isinstance(e, FP_EVENT) else exc_enum(e)
+                    ctx.issue("violation", f"FusionART.{tag}:strict-fp-state:raises-for-a-filler-in-withheld-columns:{kind_}",
+                              f"{entry} with channels {Ssp} withheld under {mode}: fillers {sorted(raised)} raise "
+                              f"({name}: {e!r}), fillers {sorted(got)} return; the supplied channels alone signal nothing "
+                              f"(arg-max over them: {ref})", dict(rp, raising_fillers=sorted(raised)))
+                    continue
+                if entry == "predict":
+                    labs = {a: [int(v) for v in o] for a, o in got.items()}
+                    first = labs["join-filler"]
+                    if any(v != first for v in labs.values()):
+                        ctx.issue("violation", "FusionART.predict:strict-fp-state:depends-on-skipped-columns",
+                                  f"skip {Ssp} under {mode}: labels {labs}", rp)
+                    elif any(b is not None and a != b for a, b in zip(first, ref)):
+                        ctx.issue("violation", "FusionART.predict:strict-fp-state:not-argmax-of-remaining-channels",
+                                  f"skip {Ssp} under {mode}: labels {first}, arg-max of the supplied channels {ref}", rp)
+                    else:
+                        cov.hit("strict-fp:predict-filler-independent-argmax-ok")
+                else:
+                    tgt = [k - 1] if entry.endswith("(default)") else tn
+                    rows = [q for q in range(nq) if ref[q] is not None]
+                    bad = None
+                    for a, o in got.items():
+                        outs_ = [o] if len(tgt) == 1 and not isinstance(o, list) else o
+                        okr = isinstance(outs_, list) and len(outs_) == len(tgt) and all(
+                            np.shape(u)[0] == nq and all(np.array_equal(np.asarray(u[q]), centres[j][ref[q]], equal_nan=True)
+                                                         for q in rows) for u, j in zip(outs_, tgt))
+                        if len(tgt) > 1 and not isinstance(o, list):
+                            okr = False
+                        if not okr:
+                            bad = a
+                            break
+                    if bad is not None:
+                        ctx.issue("violation", "FusionART.predict_regression:strict-fp-state:!=target-centre",
+                                  f"{entry} targets {Ssp} under {mode}, filler {bad}: values differ from the target-channel "
+                                  f"centres of the arg-max over the supplied channels {ref}", rp)
+                    else:
+                        cov.hit("strict-fp:regression-centre-ok" + ("(default-target)" if entry.endswith("(default)") else ""))
+
+
 def run(ctx):
     cov = ctx.cov
     ctx.assumptions += [
@@ -276,6 +493,8 @@ def run(ctx):
         "float rounding of the gamma-weighted sum is not modelled: rows whose two best remaining-channel activations "
         "differ by < 1e-9 without being term-wise identical are excluded from the arg-max comparison",
         "column bounds of the modules are the identity for the centre / regression clauses",
+        "strict floating-point error state (np.errstate / np.seterr 'raise', RuntimeWarning as error): training runs under "
+        "numpy's default state; a case whose SUPPLIED channels signal a floating-point event under the strict state is left out",
     ]
     N = ctx.scale(300, 3000)
     nmax = ctx.scale(12, 40)
@@ -496,6 +715,7 @@ def run(ctx):
         if i < 2:
             cov.sample({"classes": cls, "dims": dims, "gamma": gam, "ncat": ncat, "query_rows": nq})
     shared_selectors(ctx, ctx.scale(60, 600))
+    strict_fp_state(ctx, ctx.scale(60, 600))
     outs = run_driver(lines)
     for line, out, (kind, i, exp, rp) in zip(lines, outs, metas):
         rp = dict(rp, line=line, model=out)
